@@ -263,7 +263,9 @@ def step (st : St) : Op → Except Err St
     if hasNonAscii s then throw Err.noclaim
     let s := toLowerAscii s
     if isSpecialProtocol st.url.scheme == isSpecialProtocol s
-        && (ParseRequestURI (s ++ [58, 47, 47] ++ st.url.host)).isSome then
+        && (match ParseRequestURI (s ++ [58, 47, 47] ++ st.url.host) with
+            | some p => p.scheme == s      -- "/x" parses too, as a path without a scheme
+            | none => false) then
       let hostOk ← if isSpecialNetProtocol s then
           (if st.url.opaq == [] then validHost s st.url.host else pure false) else pure true
       if hostOk then
